@@ -307,6 +307,9 @@ def html_error_template():
 <%!
     from mako.exceptions import RichTraceback, syntax_highlight,\
             pygments_html_formatter
+    # the page is rendered in the context of the failed render, whose data
+    # may use these names
+    from builtins import len, max, min, range
 %>
 <%page args="full=True, css=True, error=None, traceback=None"/>
 % if full:
